@@ -124,7 +124,10 @@ func urlsFor(patterns []string, extra int) []string {
 				}
 			}
 			add(inst)
-			for _, t := range []string{"a", "b", "c"} {
+			for ti, t := range []string{"a", "c", "b"} {
+				if extra < 2 && ti == 2 {
+					break // quick tier: two of the three tokens
+				}
 				e1 := append(append([]spart{}, inst...), spart{false, t})
 				add(e1)
 				if extra >= 2 {
